@@ -236,6 +236,12 @@ def check_C02(tier, seed):
         elif len(progs) > 60000:
             progs = rng.sample(progs, 60000)
             run.exhaustive = False
+        if nv == 2:
+            # every tree of three join conditions (and/or in both shapes): de-duplication across branches needs three leaves
+            three = run.export("GenQuery", "G2-3leaves", "PROG", constants=dict(G="G12", NV=2, LeafLimit=6 if quick else 9, MaxLeaves=3,
+                                                                                 MaxNot=0, NeedNot=False), invariants=("Export", "WellFormed"))
+            three = [p for p in three if count_nodes(p["cond"], "cmp") + count_nodes(p["cond"], "in") == 3]
+            progs += rng.sample(three, min(len(three), 1500 if quick else 40000))
         for p in progs:
             for _ in range(1 if quick else 2):
                 W, doms = _world_and_doms(rng, nv, quick)
